@@ -212,7 +212,7 @@ def unit_cross_instance(ctx, family):
 
 def units(tier, seed):
     T = tier == "thorough"
-    sch = mc.all_schemes()
+    sch = mc.all_schemes(extended=True)
     us = []
     for i, s in enumerate(sch):
         us.append(Unit("scheme_" + "_".join(f"{k}{v}" for k, v in s.items()), "c05:unit_scheme", {"schemes": [s], "n_gen": 1500 if T else 25},
